@@ -6,6 +6,7 @@ import (
 	"crypto"
 	"crypto/ecdsa"
 	"fmt"
+	"net"
 	"strings"
 	"time"
 
@@ -476,11 +477,13 @@ func runAuthorityUnsigned(signer, q name, t uint16, nx bool, dsv string, denial 
 
 // signSection: SOA + the in-zone RRsets of denial, signed (per variant) by the zone key.
 func signSection(env *authEnv, zone string, soa *dns.SOA, denial []dns.RR, variant string) (ns, sigs []dns.RR, ok bool) {
-	soaSig, err := authSign(env.key, []dns.RR{soa}, zone)
-	if err != nil {
-		return nil, nil, false
+	if soa != nil {
+		soaSig, err := authSign(env.key, []dns.RR{soa}, zone)
+		if err != nil {
+			return nil, nil, false
+		}
+		ns, sigs = []dns.RR{soa}, []dns.RR{soaSig}
 	}
-	ns, sigs = []dns.RR{soa}, []dns.RR{soaSig}
 	type gk struct {
 		name       string
 		rtype, cls uint16
@@ -573,6 +576,183 @@ func execAuthUnsigned(f []string, nsec3 bool) vlib.Res {
 		// the zone itself: the cut must be a delegation point without DS
 		if nd := curZone.find(cut); nd == nil || !nd.isDeleg() || nd.types[tDS] {
 			res.Oracle = "FAIL sig=auth/unsigned-denial-accepted-no-such-insecure-delegation"
+		}
+	}
+	return res
+}
+
+// ---- the REAL Resolver.answer on wildcard-expanded positive answers ('z ans' / 'h ans') ----
+//
+//   z ans <signer> <owner:labels;...> <variant>
+//   h ans <signer> <owner:labels;...> <variant> <hash table>
+//
+// One RRset per entry (types A, AAAA, TXT, ... by position) in the ANSWER section,
+// question = the first owner. An entry whose RRSIG Labels is below the owner's
+// label count is a genuine wildcard expansion: the RRset is signed, with the real
+// zone key, under `*.<last Labels labels>` and then presented under the owner —
+// exactly what a server (or a replaying attacker) sends. The AUTHORITY section is
+// the current record set as sent (out-of-zone records included, unsigned; in-zone
+// RRsets signed). answer() must pass the response on only if the signatures verify
+// and, for every expansion, the signer zone's OWN records deny the next closer name
+// (RFC 4035 5.3.4); AD = that proof is secure (no Opt-Out).
+// variant: good | cd | badsig (the first answer RRset's signature damaged).
+
+var ansTypes = []uint16{dns.TypeA, dns.TypeAAAA, dns.TypeTXT, dns.TypeMX}
+
+func ansRR(owner string, t uint16) dns.RR {
+	h := dns.RR_Header{Name: owner, Rrtype: t, Class: dns.ClassINET, Ttl: 300}
+	switch t {
+	case dns.TypeAAAA:
+		return &dns.AAAA{Hdr: h, AAAA: net.ParseIP("2001:db8::1")}
+	case dns.TypeTXT:
+		return &dns.TXT{Hdr: h, Txt: []string{"c02"}}
+	case dns.TypeMX:
+		return &dns.MX{Hdr: h, Preference: 10, Mx: "mail.invalid."}
+	}
+	return &dns.A{Hdr: h, A: net.IPv4(192, 0, 2, 1).To4()}
+}
+
+// signableAns: every entry is something the zone key can have signed.
+func signableAns(gs []ansSig) bool {
+	if len(gs) == 0 || len(gs) > len(ansTypes) {
+		return false
+	}
+	for _, g := range gs {
+		o := g.owner
+		if len(o) == 0 || (len(o[0]) > 1 && o[0][0] == '*') {
+			return false
+		}
+		eff := len(o)
+		if o[0] == "*" {
+			eff--
+		}
+		// Labels above the owner's own count cannot verify; Labels == len(o) for a `*` owner
+		// is not what a signer writes either
+		if g.labels > eff || len(o.wire()) > 240 {
+			return false
+		}
+	}
+	return true
+}
+
+func runAnswer(signer name, gs []ansSig, variant string, denial []dns.RR) (impl string, aerr error, ad bool, ok bool) {
+	zone := signer.fold().pres()
+	env := authEnvFor(zone)
+	q := gs[0].owner
+	req := new(dns.Msg)
+	req.SetQuestion(q.pres(), ansTypes[0])
+	req.SetEdns0(1232, true)
+	req.CheckingDisabled = variant == "cd"
+	resp := new(dns.Msg)
+	resp.SetReply(req)
+	resp.Authoritative = true
+	for i, g := range gs {
+		o := g.owner
+		eff := len(o)
+		if o[0] == "*" {
+			eff--
+		}
+		signedAs := o
+		if g.labels < eff {
+			signedAs = o.suffix(g.labels).child("*")
+		}
+		rr := ansRR(signedAs.pres(), ansTypes[i])
+		sig, err := authSign(env.key, []dns.RR{rr}, zone)
+		if err != nil || int(sig.Labels) != g.labels {
+			if err != nil {
+				authWhy = err.Error()
+			} else {
+				authWhy = "labels"
+			}
+			return "", nil, false, false
+		}
+		rr.Header().Name, sig.Hdr.Name = o.pres(), o.pres()
+		if variant == "badsig" && i == 0 {
+			b := []byte(sig.Signature)
+			if b[10] == 'A' {
+				b[10] = 'B'
+			} else {
+				b[10] = 'A'
+			}
+			sig.Signature = string(b)
+		}
+		resp.Answer = append(resp.Answer, rr, sig)
+	}
+	ns, sigs, sok := signSection(env, zone, nil, denial, "good")
+	if !sok {
+		return "", nil, false, false
+	}
+	resp.Ns = append(ns, sigs...)
+	got, err := resolver.VerifC02Answer(env.r, req, resp, env.ds, zone)
+	if err != nil {
+		return "servfail", err, false, true
+	}
+	if got.Rcode != dns.RcodeSuccess {
+		return "rcode" + itoa(got.Rcode), nil, false, true
+	}
+	return "ok ad=" + vlib.B(got.AuthenticatedData), nil, got.AuthenticatedData, true
+}
+
+func execAnswer(f []string, nsec3 bool) vlib.Res {
+	signer, gs, variant := parseName(f[2]), parseAnsSigs(f[3]), f[4]
+	denial, fam := curRRs, "ans"
+	if nsec3 {
+		denial, fam = curRR3, "ans3"
+	}
+	if !signableAns(gs) || (!nsec3 && !signableNsec(curSet)) {
+		return vlib.Res{Impl: "unsignable", Tags: "answer-entry"}
+	}
+	impl, aerr, ad, ok := runAnswer(signer, gs, variant, denial)
+	if !ok {
+		return vlib.Res{Impl: "unsignable", Tags: strings.ReplaceAll(authWhy, " ", "_")}
+	}
+	res := vlib.Res{Impl: impl, Tags: fam + "," + variant, Oracle: "ok"}
+	expansion := false
+	for _, g := range gs {
+		if g.labels < len(g.owner) {
+			expansion = true
+		}
+	}
+	if expansion {
+		res.Tags += ",expansion"
+	}
+	if aerr != nil {
+		res.Tags += ",ans-refused"
+	} else {
+		res.Tags += ",nt,ans-passed"
+		if ad {
+			res.Tags += ",ans-ad"
+		}
+	}
+	// the wildcard validator called directly on what answer() is supposed to hand it:
+	// the authority section filtered to the signer zone
+	wr := wildResponse(gs, signer.fold())
+	wr.Ns = dnsutil.FilterRRsToZone(denial, signer.fold().pres())
+	secure, werr := dnssec.VerifyWildcardAnswerForZoneWithWork(wr, signer.fold().pres(), nil)
+	inZone := true
+	for _, g := range gs {
+		if !g.owner.fold().under(signer.fold()) {
+			inZone = false
+		}
+	}
+	switch {
+	case variant == "cd":
+		if aerr == nil && ad {
+			res.Oracle = "FAIL sig=ans/cd-response-authenticated"
+		}
+	case variant == "badsig" || foreignClass(denial, signer) || !inZone:
+		if aerr == nil && ad {
+			res.Oracle = "FAIL sig=ans/unverified-answer-authenticated"
+		}
+	case aerr == nil && werr != nil:
+		res.Oracle = "FAIL sig=ans/wildcard-expansion-accepted-without-denial direct=" + errStr(werr)
+	case aerr != nil && werr == nil:
+		res.Oracle = "FAIL sig=ans/proven-expansion-refused err=" + strings.ReplaceAll(aerr.Error(), " ", "_")
+	case aerr == nil && ad != secure:
+		res.Oracle = "FAIL sig=ans/ad-differs-from-proof-security"
+	case aerr == nil && ad && !nsec3 && judged(signer):
+		if why := wildTruth(curZone, gs); why != "" && why != "unjudged" {
+			res.Oracle = "FAIL sig=ans/wildcard/" + why
 		}
 	}
 	return res
